@@ -2,6 +2,7 @@
 //! C02, C03, C09, C10 and C18.
 
 pub mod accept;
+pub mod bus;
 pub mod enumerate;
 pub mod explore;
 pub mod families;
